@@ -205,7 +205,7 @@ static void do_resize(unsigned long size)
 }
 
 /* planned suspension inside an operation: ordinal / length, fixed at generation time */
-static unsigned char stall_ord[MAX_SCRIPT_THREADS][MAX_OPS];
+static unsigned short stall_ord[MAX_SCRIPT_THREADS][MAX_OPS];
 static unsigned short stall_len[MAX_SCRIPT_THREADS][MAX_OPS];
 static int final_stall_ord, final_stall_len, final_grow, destroy_first;
 
@@ -437,7 +437,7 @@ static void gen(void)
 	mm = mmsel == 0 ? &cds_lfht_mm_order : mmsel == 1 ? &cds_lfht_mm_chunk :
 	     mmsel == 2 ? &cds_lfht_mm_mmap : NULL;
 	usim_set_ncpus((int) usim_param("ncpus", 1 << rnd(3)));
-	usim_set_knob(URCU_VERIF_KNOB_MIN_PARTITION_ORDER, (unsigned long) usim_param("knob.min_partition_order", rnd(3) == 0 ? 12 : rnd(2)));
+	usim_set_knob(URCU_VERIF_KNOB_MIN_PARTITION_ORDER, (unsigned long) usim_param("knob.min_partition_order", rnd(2) == 0 ? 12 : rnd(2)));
 	usim_set_knob(URCU_VERIF_KNOB_COUNT_COMMIT_ORDER, (unsigned long) usim_param("knob.count_commit_order", 1 + rnd(2)));
 	usim_fault_enable("getcpu_migrate", rnd(2));
 	usim_fault_enable("getcpu_fail", rnd(4) == 0);
@@ -535,6 +535,8 @@ static void gen(void)
 			/* one operation in five is suspended for a while at one of its first shared-memory accesses */
 			stall_ord[t][i] = rnd(5) == 0 ? 1 + rnd(14) : 0;
 			stall_len[t][i] = (unsigned short) (100 + rnd(3000));
+			if (op->kind == K_RESIZE && rnd(2))
+				stall_ord[t][i] = (unsigned short) (1 + rnd(700));	/* somewhere deep inside the resize */
 			if (op->kind == K_RESIZE)
 				usim_describe("%s\"resize(%ld)\"", i ? "," : "", op->v);
 			else if (op->kind == K_FILL)
